@@ -87,12 +87,13 @@ Theorem C12_class_split :
 Proof. exact class_split. Qed.
 Print Assumptions C12_class_split.
 
-(* _add_signature_parameter's table (code-shaped arg_of_param): required iff no default and not Optional;
+(* _add_signature_parameter's table (code-shaped arg_of_param): required iff no default, not Optional and not a
+   dataclass group whose fields all have defaults (ty_default);
    positional iff required and as_positional; Optional without default = option defaulting to None (private or not). *)
 Theorem C12_required_iff_no_default :
   forall (as_pos : bool) (p : param) (a : arg),
     arg_of_param false as_pos p = Some a ->
-    (a_req a = true <-> (p_default p = None /\ is_optional (p_ty p) = false)) /\
+    (a_req a = true <-> (p_default p = None /\ is_optional (p_ty p) = false /\ ty_default (p_ty p) = None)) /\
     (a_pos a = true <-> (a_req a = true /\ as_pos = true)).
 Proof. exact required_iff_no_default. Qed.
 Print Assumptions C12_required_iff_no_default.
